@@ -385,10 +385,49 @@ pub fn c10(a: &Args, rep: &mut Report) {
             ..Default::default()
         };
         let c = gen_case("C10situ", &a.tier, a.seed, k, &o);
-        if let Ok(b) = build_observed(&c, 4000, 0) {
-            check_exact_log("C10", &c, &b.trace, rep);
-            rep.count("in_situ_builds", 1);
-            rep.sample(c.summary());
+        match build_observed(&c, 4000, 0) {
+            Ok(b) => {
+                check_exact_log("C10", &c, &b.trace, rep);
+                rep.count("in_situ_builds", 1);
+                rep.sample(c.summary());
+            }
+            Err(p) => rep.violations.push(panic_violation("C10", &c, &p)),
+        }
+    });
+    in_situ_many_planes(a, rep);
+}
+
+/// In situ, second workload: cells with MANY clipping planes (a centre inside a shell: about n planes; density gradients) in
+/// boxes of 1e-15 / 1e-30, where every clip decision of every vertex goes through the exact predicate - the grid points handed
+/// to the predicate for planes with large indices (beyond 64, 128, 256) are checked against the positions they stand for.
+fn in_situ_many_planes(a: &Args, rep: &mut Report) {
+    let nb = ncases(a, 24, 400);
+    run_parallel(rep, nb, budget(a, 100., 600.), |k, rep| {
+        let o = GenOpts {
+            sizes: &[80, 150, 300],
+            families: &["star", "star", "gradient"],
+            dims: &[3, 3, 2],
+            mild_box: true,
+            ..Default::default()
+        };
+        let c0 = gen_case("C10planes", &a.tier, a.seed, k, &o);
+        if c0.width.max_element() < 1e-12 {
+            return;
+        }
+        let c = vcore::case::rescaled(&c0, if k % 2 == 0 { 1e-15 } else { 1e-30 });
+        // (the trace is kept when the construction panics: the decisions logged up to the panic are checked all the same)
+        meshless_voronoi::verif::trace_begin(400_000, 0);
+        let r = guarded(|| build_integrator(&c));
+        let trace = meshless_voronoi::verif::trace_end();
+        check_exact_log("C10", &c, &trace, rep);
+        match r {
+            Ok(vi) => {
+                rep.count("in_situ_builds_many_planes", 1);
+                let most = vi.cells_iter().map(|x| x.clipping_planes.len()).max().unwrap_or(0);
+                rep.max("in_situ_most_clipping_planes_of_one_cell", most as f64);
+            }
+            // a construction that panics on an input of the conditioned domain whose every decision is an exact one
+            Err(p) => rep.violations.push(panic_violation("C10", &c, &p)),
         }
     });
 }
